@@ -69,6 +69,7 @@ type Ctx struct {
 	MaxViol     int
 	Quiet       bool
 	ReplayFile  string
+	Replay      *Violation
 }
 
 func NewCtx(root, prop, tier string, seed int) *Ctx {
@@ -232,6 +233,13 @@ func (c *Ctx) Finish() int {
 	ev := map[string]interface{}{
 		"property_id": c.Prop, "tier": c.Tier, "seed": c.Seed, "level": c.Level,
 		"coverage": cov, "assumptions": c.Assumptions, "wall_s": wall, "violations": len(c.violations),
+	}
+	if c.Replay != nil {
+		// a replay is not a check run: leave the evidence file alone
+		if len(c.violations) > 0 {
+			return 1
+		}
+		return 0
 	}
 	os.MkdirAll(filepath.Join(c.Root, "evidence"), 0o755)
 	b, _ := json.MarshalIndent(ev, "", " ")
